@@ -20,4 +20,10 @@ Section S.
   Lemma new_equiv s :
     runm lib__MiniVec__new_ast [] s = ((if 0 <? esz cfg then Norm (minivec_val Sentinel) else Panic), s).
   Proof. unfold runm. evm. destruct (0 <? esz cfg); reflexivity. Qed.
+
+  (* is_default(): `core::ptr::eq(self.buf.as_ptr(), DEFAULT_U8)` = Machine.is_default (is the handle the
+     shared sentinel?) -- the test every entry point relies on before it touches a header *)
+  Lemma is_default_equiv v s :
+    runm lib__MiniVec__is_default_ast [VObj v] s = lift_m (is_default v) VBool s.
+  Proof. unfold runm. evm. cbv [is_default bind ret lift_m]. sym. Qed.
 End S.
